@@ -21,8 +21,8 @@ from .. import guards as G
 from ..model import AnalysisError, Unknown, dotted, src
 from . import c04
 
-TECHNIQUE = "emission model of builder code (ICmd constructions read from the AST): branch-sense table, operand/label/register coherence at every emit site, predicate evaluation; abstract interpretation of small functions over an enumerated finite domain by the checker's own AST interpreter (static analysis)"
-ENGINES = ["model", "emit", "circuit"]
+TECHNIQUE = "emission model of builder code (ICmd constructions read from the AST): branch-sense table, operand/label/register coherence at every emit site, predicate evaluation, register typestate; flush / compile pipeline executed against the repository's own builder bookkeeping by the checker's AST interpreter (static analysis; abstract execution)"
+ENGINES = ["model", "emit", "circuit", "pipeline"]
 EXPLANATION = (
     "Over sdk/builder.py, sdk/futures.py, sdk/connection.py, lang/ir.py: flip_branch_instr is total over the six conditions, an "
     "involution and the logical negation under the executor's predicates; every if_XX API (connection, builder, futures) passes the "
